@@ -65,7 +65,12 @@ func readStreamedBlock(r io.Reader, scale uint8) (block *labels.Block, compresse
 	}
 
 	block = new(labels.Block)
-	err = block.UnmarshalBinary(uncompressed)
+	if err = block.UnmarshalBinary(uncompressed); err != nil {
+		return
+	}
+	if err = block.Validate(); err != nil {
+		err = fmt.Errorf("block %s is malformed: %v", bcoord, err)
+	}
 	return
 }
 
